@@ -46,6 +46,19 @@ def check(spec, rng):
         viol.append({'id': 'currents-depend-on-ground-constants', 'observed': e})
     zen, azi = (0, 10, 8), (spec['azi0'], 67, 4)       # zenith 0..70: above grazing
     pr = pattern(mr, zen, azi)
+    # the ground constants of the solved model are changed and the pattern is asked for again (the currents need no new
+    # solve: they do not depend on the ground): the result is that of a model built with the new constants
+    m2 = solve(spec, spec['media'])
+    pattern(m2, zen, azi)
+    if hasattr(m2.media[0], 'conductivity') and hasattr(m2.media[0], 'permittivity'):
+        m2.media[0].conductivity = m2.media[0].conductivity * 7.0
+        changed = [dict(md) for md in spec['media']]
+        changed[0]['sigma'] = changed[0]['sigma'] * 7.0
+        p_again = pattern(m2, zen, azi)
+        p_fresh = pattern(solve(spec, changed), zen, azi)
+        if np.max(np.abs(p_again - p_fresh)) > 1e-9:
+            viol.append({'id': 'pattern-after-a-change-of-the-ground-constants-differs-from-a-fresh-model',
+                         'observed': float(np.max(np.abs(p_again - p_fresh)))})
     # splitting a medium into adjacent pieces with identical constants and height
     ms = spec['media']
     if len(ms) == 1:
